@@ -1474,3 +1474,158 @@ def _nditer_set(it, o, idx, v):
 
 
 S.OBJ_SETITEM['nditer'] = _nditer_set
+
+
+# ------------------------------------------------------------------------------------------------ scipy.sparse (concrete shape; dense backing)
+# contract: M = matrix_type((vals, (rows, cols)), shape): M[i,j] = sum_t [rows_t = i and cols_t = j] vals_t  (duplicates are summed)
+def _mk_sparse(dense, fmt):
+    return Obj(None, {'dense': dense, 'sparse_format': fmt, 'pytype': fmt + '_matrix'}, tag='sparse')
+
+
+def _sparse_ctor(fmt):
+    def ctor(it, arg, shape=None, dtype=None, **k):
+        if isinstance(arg, tuple) and len(arg) == 2 and isinstance(arg[1], tuple):
+            vals, (rows, cols) = arg
+            vals, rows, cols = [a if is_arr(a) else to_carr(a) for a in (vals, rows, cols)]
+            if not all(isinstance(a, CArr) for a in (vals, rows, cols)):
+                return sym_sparse(it, fmt, vals, rows, cols, shape)
+            n, m = [conc(s) for s in shape]
+            if not (isinstance(n, int) and isinstance(m, int)):
+                raise Unsupported('sparse matrix of symbolic shape from concrete triplets')
+            if not (vals.size == rows.size == cols.size):
+                raise PyExc('ValueError', 'row, column, and data array must all be the same length')
+            d = np.empty((n, m), dtype=object)
+            d[...] = zero_of(vals.kind if vals.size else 'real')
+            for v, r, c in zip(vals.data.reshape(-1), rows.data.reshape(-1), cols.data.reshape(-1)):
+                r, c = conc(r), conc(c)
+                if is_sym(r) or is_sym(c):
+                    raise Unsupported('sparse construction with symbolic indices on a concrete shape')
+                if not (0 <= r < n and 0 <= c < m):
+                    raise PyExc('ValueError', 'index exceeds matrix dimensions')
+                d[r, c] = V.add(d[r, c], v)
+            return _mk_sparse(CArr(d), fmt)
+        if isinstance(arg, Obj) and arg.tag == 'sparse':
+            return _mk_sparse(CArr(arg.fields['dense'].data.copy()), fmt)
+        if isinstance(arg, CArr):
+            return _mk_sparse(CArr(arg.data.copy()), fmt)
+        raise Unsupported('sparse constructor form')
+    return ctor
+
+
+def sym_sparse(it, fmt, vals, rows, cols, shape):
+    """symbolic-size COO family: kept as triplets; entries are Sigma-terms over the triplet index"""
+    vals, rows, cols = [A.snapshot(to_larr(a)) for a in (vals, rows, cols)]
+    return Obj(None, {'vals': vals, 'rows': rows, 'cols': cols, 'shape': tuple(shape), 'sparse_format': fmt, 'pytype': fmt + '_matrix'}, tag='sparse_sym')
+
+
+for _f in ('csc', 'csr', 'coo'):
+    NP[('sps', _f + '_matrix')] = _sparse_ctor(_f)
+    NP[('sps', _f + '_array')] = _sparse_ctor(_f)
+
+
+def _sparse_attr(it, o, attr):
+    T = I()
+    B = lambda f: T.Builtin(attr, f)
+    d = o.fields['dense']
+    if attr in ('todense', 'toarray'):
+        return B(lambda: CArr(d.data.copy()))
+    if attr == 'shape':
+        return tuple(d.shape)
+    if attr == 'ndim':
+        return 2
+    if attr == 'size' or attr == 'nnz':
+        raise Unsupported('number of stored entries of a sparse matrix')
+    if attr == 'dtype':
+        return S.dtype_of(d)
+    if attr == 'T':
+        return _mk_sparse(CArr(d.data.T.copy()), o.fields['sparse_format'])
+    if attr == 'transpose':
+        return B(lambda: _mk_sparse(CArr(d.data.T.copy()), o.fields['sparse_format']))
+    if attr in ('conj', 'conjugate'):
+        return B(lambda: _mk_sparse(elementwise(it.ctx, V.conj, d), o.fields['sparse_format']))
+    if attr == 'copy':
+        return B(lambda: _mk_sparse(CArr(d.data.copy()), o.fields['sparse_format']))
+    if attr == 'diagonal':
+        return B(lambda k=0: CArr(np.diagonal(d.data, k).copy()))
+    if attr in ('tocsc', 'tocsr', 'tocoo'):
+        return B(lambda: _mk_sparse(CArr(d.data.copy()), attr[2:]))
+    if attr == 'dot':
+        return B(lambda x: A.matmul(it.ctx, d, x.fields['dense'] if isinstance(x, Obj) and x.tag == 'sparse' else x))
+    if attr == 'real':
+        return _mk_sparse(elementwise(it.ctx, V.real_part, d), o.fields['sparse_format'])
+    if attr == 'imag':
+        return _mk_sparse(elementwise(it.ctx, V.imag_part, d), o.fields['sparse_format'])
+    return NotImplemented
+
+
+def _sparse_binop(it, on, a, b):
+    fa = a.fields['dense'] if isinstance(a, Obj) and a.tag == 'sparse' else a
+    fb = b.fields['dense'] if isinstance(b, Obj) and b.tag == 'sparse' else b
+    fmt = (a if isinstance(a, Obj) and a.tag == 'sparse' else b).fields['sparse_format']
+    both_sparse = isinstance(a, Obj) and a.tag == 'sparse' and isinstance(b, Obj) and b.tag == 'sparse'
+    if on in ('Add', 'Sub'):
+        r = A.arr_binop(it.ctx, on, fa, fb)
+        return _mk_sparse(r, fmt) if both_sparse else r      # sparse + dense gives a dense matrix
+    if on == 'MatMult':
+        r = A.matmul(it.ctx, fa, fb)
+        return _mk_sparse(r, fmt) if both_sparse else r
+    if on == 'Mult':
+        if V.is_scalar(fa) or V.is_scalar(fb):
+            return _mk_sparse(A.arr_binop(it.ctx, 'Mult', fa, fb), fmt)
+        # scipy sparse matrix * array is the MATRIX product
+        r = A.matmul(it.ctx, fa, fb)
+        return _mk_sparse(r, fmt) if both_sparse else r
+    if on == 'Div' and V.is_scalar(fb):
+        return _mk_sparse(A.arr_binop(it.ctx, 'Div', fa, fb), fmt)
+    return NotImplemented
+
+
+def _sparse_getitem(it, o, idx):
+    r = A.arr_getitem(it.ctx, o.fields['dense'], idx)
+    if isinstance(r, CArr) and r.ndim == 2:
+        return _mk_sparse(r, o.fields['sparse_format'])
+    if isinstance(r, CArr) and r.ndim == 1:
+        # scipy keeps 2-D: row/column slices of a sparse matrix are 1 x n / n x 1 matrices
+        raise Unsupported('1-D result of sparse indexing')
+    return r
+
+
+S.OBJ_ATTR['sparse'] = _sparse_attr
+S.OBJ_BINOP['sparse'] = _sparse_binop
+S.OBJ_GETITEM['sparse'] = _sparse_getitem
+DEEPCOPY['sparse'] = lambda it, x: _mk_sparse(CArr(x.fields['dense'].data.copy()), x.fields['sparse_format'])
+
+
+def _sparse_sym_attr(it, o, attr):
+    if attr == 'shape':
+        return tuple(o.fields['shape'])
+    return NotImplemented
+
+
+S.OBJ_ATTR['sparse_sym'] = _sparse_sym_attr
+
+
+@np_fn('issparse', 'isspmatrix', ns='sps')
+def sps_issparse(it, x):
+    return isinstance(x, Obj) and x.tag in ('sparse', 'sparse_sym')
+
+
+@np_fn('isin')
+def np_isin(it, a, b, **k):
+    a = a if is_arr(a) else to_carr(a)
+    b = b if is_arr(b) else to_carr(b)
+    if isinstance(a, CArr) and isinstance(b, CArr):
+        bl = list(b.data.reshape(-1))
+        out = np.empty(a.shape, dtype=object)
+        for o in np.ndindex(*a.shape):
+            r = False
+            for v in bl:
+                r = V.or_(r, V.cmp('==', a.data[o], v))
+            out[o] = r
+        return CArr(out, 'bool')
+    raise Unsupported('isin on symbolic arrays')
+
+
+NP[('np', 'bitwise_or')] = NP[('np', 'logical_or')]
+NP[('np', 'bitwise_and')] = NP[('np', 'logical_and')]
+NP[('np', 'bitwise_not')] = NP[('np', 'logical_not')]
